@@ -61,6 +61,10 @@ SPEC = [
     }),
     dict(module="aotools/functions/karhunenLoeve.py", prefix="kl_", funcs={
         "stf_kolmogorov": {}, "stf_vonKarman": {}, "stf_vonKarman_yao": {},
+        # C13: the constants of the Karhunen-Loeve construction (grid step, kernel normalisation, matrix scaling)
+        "gkl_radii": {"extract": "d", "params": ["ri", "nr"], "lean_name": "kl_radii_d"},
+        "gkl_kernel": {"extract": "fnorm", "params": ["ri"], "lean_name": "kl_fnorm"},
+        "gkl_fcom": {"extract": "fktom", "params": ["ri", "nr"], "lean_name": "kl_fktom"},
     }),
     dict(module="aotools/turbulence/phasescreen.py", prefix="", funcs={
         "ft_phase_screen": {"extract": "PSD_phi", "params": ["f", "fm", "f0", "r0"],
